@@ -924,7 +924,6 @@ def eval_refusal(case):
     thunk = refusal_table()[name]
     res = call(thunk)
     if res.ok:
-        grp = name.split("_", 1)[0]
         return [V("must_raise", f"must_raise|{name}", case, "refused with an exception", res.describe())], "accepted"
     return [], "refused:" + type(res.exc).__name__
 
@@ -1589,7 +1588,6 @@ def g4_judge(case, path, dim):
     out = []
     axes, rows = g4_parse(path)
     aligned = int(all(g4_aligned(a) for a in axes))
-    src = case["source"]
     r = call(geant4.load_csv, path)
     sb = f"geant4|h{dim}"
     if not r.ok:
